@@ -15,6 +15,13 @@ CLAIMS = {
  'C16': dict(text="Static effect and loop-shape analysis: the lookup entry points (Load, Size/counter sum, Count) transitively reach no lock, blocking primitive, yield, read of the resize flag, shared write or user call other than the hasher; every loop in them is of an accepted non-waiting kind (bounded scan, chain walk to nil, SWAR scan, snapshot retry that repeats only if two atomic loads of one slot differ); in the load-if-exists mode of the compute core the lock-free lookup precedes every lock acquire and its hit edge returns unlocked; the cache read path reaches a locking map operation only on the expired outcome of an expiry test of the loaded item; the resize copy never writes through its source chain. Necessary conditions for 'reads never wait', decided on all paths; step counts and progress of the snapshot retry under a never-pausing writer are not decided.",
              note="Trusted: go/ssa, a frozen effect table for the standard-library callees the library uses (an unlisted callee fails the rule), hashers assumed non-blocking.",
              tech="static analysis: bottom-up call-graph effect sets, natural-loop classification, specialised CFG precedence and dominance queries", ref="DESIGN.md §3 C16"),
+
+ 'C05': dict(text="Static property simulation of the compute core (SSA CFG x call-count/lock/validation automaton) under each constant mode: the user function is called at most once per call across internal retries, exactly once in the unconditional modes, and in the load-if-exists mode exactly on the returns reporting loaded=false; it runs under the validated bucket lock with a truthful loaded flag and its result is committed before the lock is released; API wrappers select the documented mode and adapters call the user's function once; cache get-or-create / read-modify-write methods decide through an atomic read-modify-write of the underlying map, never issue an unconditional mutation after an observation (check-then-act) and never call the user's function outside the per-key section. Necessary conditions of C05 on all paths; serialisation by the lock itself rests on C13/C14/C03.",
+             note="Trusted: go/ssa; mode parameters are constants at all call sites (checked); lock correctness from C13/C14.",
+             tech="static analysis: typestate automaton over SSA CFG with constant specialisation; check-then-act (TOCTOU) ordering rule", ref="DESIGN.md §3 C05"),
+ 'C08': dict(text="Static counter-pairing analysis: on every path of the compute core a slot clear is matched by exactly one atomic -1, a slot fill / bucket link by exactly one +1, a replacement by none, always on the table the attempt validated; the resize copy counts each appended entry once and resize adds that count once to the new unpublished table; the clear hint copies nothing into a fresh table; Size sums all stripes of the published table and Count is Size; no counter update exists outside the analysed functions. Necessary conditions for exact counts at quiescence; exactness over histories additionally needs the C03/C04 protocol shape.",
+             note="Trusted: go/ssa; structural discovery of counter helpers (by receiver type, body and callers).",
+             tech="static analysis: path-sensitive effect pairing over SSA CFG, call-site coverage check", ref="DESIGN.md §3 C08"),
 }
 checks = []
 for i in ids:
